@@ -4,6 +4,12 @@
 (* §3.3): the actions only enumerate the input domain (cluster snapshot built topic by topic, then one request); *)
 (* every "done" state is one input, `Reply` is the specification of the function, and the C28 predicates on      *)
 (* Reply(input) are the theorem TLC checks over the whole domain.                                                 *)
+(* History dimension: the proxy is long-lived and keeps a topic-id -> name cache (p.topicNames, filled by          *)
+(* refreshMetadataCache at start, every 10 s and on a cache miss).  An input therefore also carries `prev`, the   *)
+(* (name, id) pairs of the cluster metadata the proxy refreshed its caches from BEFORE the cluster changed to      *)
+(* `snap`: <<>> = cold proxy, the same topics (nothing changed), or every topic under an older id (a topic of      *)
+(* `snap` was deleted and re-created with a new id; a topic missing from `snap` was deleted).  The property is     *)
+(* about the CURRENT cluster metadata `snap`; the specified reply does not depend on `prev`.                       *)
 EXTENDS Integers, Sequences, FiniteSets, TLC, Json
 CONSTANTS Names,        \* topic names that may exist in the cluster, e.g. {"ta","tb"}
           UnknownName,  \* a name no cluster has
@@ -14,7 +20,9 @@ CONSTANTS Names,        \* topic names that may exist in the cluster, e.g. {"ta"
           DevKeepLeader,     \* deviation: partition leader copied from the cluster metadata
           DevKeepBrokers,    \* deviation: the cluster's broker list is passed through
           DevIdFilterAll,    \* deviation: a by-id request is answered with all topics
-          DevDropErrTopics   \* deviation: topics carrying an error are omitted
+          DevDropErrTopics,  \* deviation: topics carrying an error are omitted
+          DevStaleIdCache    \* deviation: a by-id request whose ids are all in the (possibly stale) id -> name cache is
+                             \*            answered by a by-NAME lookup of the cached names
 VARIABLES phase, snap, input, hist
 vars == <<phase, snap, input, hist>>
 
@@ -34,10 +42,16 @@ AddTopic(n, terr, ps) ==
   /\ snap' = Append(snap, [name |-> n, id |-> IdOf(n), terr |-> terr, parts |-> MkParts(ps)])
   /\ UNCHANGED <<phase, input, hist>>
 
-Choose(kind, mode, names, tids) ==
+OldIdOf(n) == IdOf(n) + 10        \* the id a topic of that name had before it was deleted (and possibly re-created)
+RECURSIVE SetToSeq(_)
+SetToSeq(S) == IF S = {} THEN <<>> ELSE LET x == CHOOSE x \in S : TRUE IN <<x>> \o SetToSeq(S \ {x})
+PrevSame == [i \in DOMAIN snap |-> [name |-> snap[i].name, id |-> snap[i].id]]
+PrevOld  == LET ns == SetToSeq(Names) IN [i \in DOMAIN ns |-> [name |-> ns[i], id |-> OldIdOf(ns[i])]]
+
+Choose(kind, mode, names, tids, prev) ==
   /\ phase = "build" /\ phase' = "done"
   /\ kind # "metadata" => snap = <<>>          \* these replies do not depend on the cluster metadata
-  /\ input' = [kind |-> kind, snap |-> snap, mode |-> mode, names |-> names, ids |-> tids]
+  /\ input' = [kind |-> kind, snap |-> snap, mode |-> mode, names |-> names, ids |-> tids, prev |-> prev]
   /\ hist' = <<input'>>
   /\ UNCHANGED snap
 
@@ -55,10 +69,15 @@ AddAny ==
 ChooseAny ==
   /\ phase = "build"
   /\ \/ \E kind \in {"metadata", "nr_metadata"} :
-          \/ Choose(kind, "all", <<>>, <<>>)
-          \/ \E ns \in ReqSeqs(Names \cup {UnknownName}) : Choose(kind, "names", ns, <<>>)
-          \/ \E is \in ReqSeqs({IdOf(n) : n \in Names} \cup {UnknownId}) : Choose(kind, "ids", <<>>, is)
-     \/ \E kind \in {"coordinator", "nr_coordinator"} : Choose(kind, "all", <<>>, <<>>)
+          \/ Choose(kind, "all", <<>>, <<>>, <<>>)
+          \/ \E ns \in ReqSeqs(Names \cup {UnknownName}) : Choose(kind, "names", ns, <<>>, <<>>)
+          \/ \E is \in ReqSeqs({IdOf(n) : n \in Names} \cup {UnknownId}) : Choose(kind, "ids", <<>>, is, <<>>)
+     \/ \E kind \in {"coordinator", "nr_coordinator"} : Choose(kind, "all", <<>>, <<>>, <<>>)
+     \* long-lived proxy, by-id request after its caches were refreshed from `prev`
+     \/ /\ snap # <<>>     \* nothing changed since the refresh
+        /\ \E is \in ReqSeqs({IdOf(n) : n \in Names} \cup {UnknownId}) : Choose("metadata", "ids", <<>>, is, PrevSame)
+     \/ \* every topic was deleted (and those in `snap` re-created under a new id) since the refresh; old and current ids asked
+        \E is \in ReqSeqs({OldIdOf(n) : n \in Names} \cup {IdOf(CHOOSE n \in Names : TRUE)}) : Choose("metadata", "ids", <<>>, is, PrevOld)
 Next == AddAny \/ ChooseAny
 Spec == Init /\ [][Next]_vars
 
@@ -66,8 +85,13 @@ Spec == Init /\ [][Next]_vars
 PP(in) == INSTANCE ProxyMetaProps WITH proxy <- Proxy, inp <- in, reply <- <<>>
 Find(sn, Q(_)) == LET I == {i \in DOMAIN sn : Q(sn[i])} IN IF I = {} THEN 0 ELSE CHOOSE i \in I : TRUE
 \* what store.Metadata / loadMetadata select from the cluster metadata (ProxyMetaProps!sel is the definition)
+CachedName(in, id) == LET I == {i \in DOMAIN in.prev : in.prev[i].id = id} IN in.prev[CHOOSE i \in I : TRUE].name
+AllCached(in) == in.ids # <<>> /\ \A k \in DOMAIN in.ids : \E i \in DOMAIN in.prev : in.prev[i].id = in.ids[k]
 Select(in) ==
-  IF in.mode = "ids" /\ DevIdFilterAll THEN PP([in EXCEPT !.mode = "all"])!sel ELSE PP(in)!sel
+  IF in.mode = "ids" /\ DevIdFilterAll THEN PP([in EXCEPT !.mode = "all"])!sel
+  ELSE IF in.mode = "ids" /\ DevStaleIdCache /\ AllCached(in)
+  THEN PP([in EXCEPT !.mode = "names", !.names = [k \in DOMAIN in.ids |-> CachedName(in, in.ids[k])]])!sel
+  ELSE PP(in)!sel
 \* the leaders of the selected topics, needed only by the deviation
 LeaderOf(in, name, p) == LET HasName(t) == t.name = name  i == Find(in.snap, HasName) IN
                          IF i = 0 THEN 0 ELSE in.snap[i].parts[p + 1].leader
